@@ -48,6 +48,26 @@ class Obligation:
         return (self.scenario, self.name, self.path)
 
 
+def has_fp(e) -> bool:
+    """Does the term mention floating-point sorts?  (Such conjuncts are kept out of the cheap pruning solver.)"""
+    seen = set()
+    stack = [e]
+    while stack:
+        x = stack.pop()
+        i = x.get_id()
+        if i in seen:
+            continue
+        seen.add(i)
+        k = x.sort().kind()
+        if k in (z3.Z3_FLOATING_POINT_SORT, z3.Z3_ROUNDING_MODE_SORT):
+            return True
+        if z3.is_app(x):
+            stack.extend(x.children())
+        elif z3.is_quantifier(x):
+            stack.append(x.body())
+    return False
+
+
 def has_quantifier(e) -> bool:
     seen = set()
     stack = [e]
@@ -108,12 +128,12 @@ class Ctx:
         if z3.is_false(b):
             raise PathEnd()
         self.pc.append(b)
-        if not has_quantifier(b):
+        if not has_quantifier(b) and not has_fp(b):
             self._solver.add(b)
 
     def _feasible(self, b) -> bool:
         """Cheap pruning only: quantifier-free conjuncts, short budget; unknown counts as feasible."""
-        if has_quantifier(b):
+        if has_quantifier(b) or has_fp(b):
             return True
         self._solver.push()
         try:
@@ -179,6 +199,8 @@ class Ctx:
               note: str = '', assume_after: bool = True) -> None:
         if isinstance(goal, bool):
             goal = z3.BoolVal(goal)
+        elif not has_quantifier(goal):
+            goal = z3.simplify(goal)      # syntactically equal sides reduce to True without a solver call
         name = f'{self.current_fn}/{kind}/{label}' + (f'@L{line}' if line else '')
         ob = Obligation(name=name, kind=kind, props=tuple(props if props is not None else self.default_props),
                         hyps=list(self.pc), goal=goal, scenario=self.scenario, path=tuple(self.trace), line=line,
